@@ -19,13 +19,16 @@ class C08(GuardedBase):
         'quick': [P('%s/%s/%s' % (XT, XT, XT), 0, 1, 600), P('%s/%s/%s' % (XT, XT, XT), 1, 1, 400), P('%s/%s/%s' % (XT, XT, XT), 1, 1, 400, enabled=0),
                   P('%s/%s/%s' % (XT, ST, ST), 3, 3, 500), P('%s/%s/%s' % (XT, ST, ST), 3, 3, 400, enabled=0),
                   P('0;0/1;2/6;7/13;3', 2, 3, 400, 'solo'), P('0;0/1;1/5;6/3;4', 3, 1, 400, 'solo', enabled=0),
-                  P('0;0/2;2/1;13', 1, 1, 300, 'solo', enabled=0), P('13;13/13;0/1;2', 0, 1, 500), P('%s/%s/%s' % (X, X, S), 2, 2, 300)],
+                  P('0;0/2;2/1;13', 1, 1, 300, 'solo', enabled=0), P('13;13/13;0/1;2', 0, 1, 500), P('%s/%s/%s' % (X, X, S), 2, 2, 300),
+                  # disabled locking on a NON-shared mutex, several threads using the try / timed shared forms at once (seed C08e)
+                  P('6;7/7;6/5;6', 3, 1, 300, 'solo', enabled=0), P('%s/%s/%s' % (ST, ST, XT), 3, 1, 300, enabled=0), P('6;5/6;6/6', 3, 0, 200, 'solo', enabled=0)],
         'thorough': [P('%s/%s/%s' % (XT, XT, XT), 0, 1, 15000), P('%s/%s/%s' % (XT, XT, XT), 1, 1, 10000),
                      P('%s/%s/%s' % (XT, XT, XT), 1, 1, 10000, enabled=0), P('%s/%s/%s' % (XT, ST, ST), 3, 3, 12000),
                      P('%s/%s/%s' % (XT, ST, ST), 3, 3, 10000, enabled=0), P('0;0/1;2/6;7/13;3', 2, 3, 10000, 'solo'),
                      P('0;0/1;1/5;6/3;4', 3, 1, 10000, 'solo', enabled=0), P('0;0/2;2/1;13', 1, 1, 8000, 'solo', enabled=0),
                      P('13;13/13;0/1;2', 0, 1, 12000), P('%s/%s/%s' % (X, X, S), 2, 2, 8000), P('%s/%s/%s' % (X, X, S), 3, 0, 8000, enabled=0),
-                     P('3;1;2;0/1;2;3;13/2;1;4;4', 0, 1, 12000, 'pct')],
+                     P('3;1;2;0/1;2;3;13/2;1;4;4', 0, 1, 12000, 'pct'),
+                     P('6;7/7;6/5;6', 3, 1, 6000, 'solo', enabled=0), P('%s/%s/%s' % (ST, ST, XT), 3, 1, 6000, enabled=0), P('6;5/6;6/6', 3, 0, 4000, 'solo', enabled=0)],
     }
     assumptions = ['bounded: TLC results are for the thread/operation counts named in the configs',
                    'a moved-from lock_handle keeps its raw pointer; C08 only constrains the lock (released exactly once, by the new owner)',
